@@ -17,8 +17,9 @@ for ID in "$@"; do
   echo "== re-check of $ID against /repo $HEAD, /verif $(git -C "$V" rev-parse --short HEAD)" >> "$log"
   git -C "$R" checkout -q -- . ; git -C "$R" clean -fdq
   applied=yes
-  if ! git -C "$R" apply "$S/patch.diff" 2>>"$log"; then
-    if ! (cd "$R" && patch -p1 --fuzz=3 --no-backup-if-mismatch < "$S/patch.diff" >> "$log" 2>&1); then applied=no; fi
+  PATCH="$S/patch.diff"; [ -f "$S/patch-head.diff" ] && PATCH="$S/patch-head.diff"   # the same change re-made by hand on the current tree
+  if ! git -C "$R" apply "$PATCH" 2>>"$log"; then
+    if ! (cd "$R" && patch -p1 --fuzz=3 --no-backup-if-mismatch < "$PATCH" >> "$log" 2>&1); then applied=no; fi
   fi
   if [ "$applied" = no ]; then
     echo "$ID applies=no" | tee -a "$log"; continue
